@@ -790,6 +790,7 @@ impl<'a> Exec<'a> {
             Op::ParMask { hs, words, is_async } => self.op_par_mask(hs, words, *is_async),
             Op::CMaskInto { h, words } => self.op_cmask_into(*h, *words),
             Op::CFfInto { h, len } => self.op_cff_into(*h, *len),
+            Op::CTokUtil { which, seed, len, via_clone } => self.op_ctok_util(*which, *seed, *len, *via_clone),
             Op::StopNew {
                 h,
                 stop_tokens,
